@@ -83,22 +83,23 @@ Section Loop.
   Qed.
 
   (* ------------------------------------------------------------ agreement with the direct lookup *)
-  (* interface: [dl c] is the direct lookup (key 0) *)
+  (* interface: [dl c] is the direct lookup; [G c key] says that the range key [key] may be used for code point [c] *)
   Variable dl : N -> N.
-  Hypothesis dl_def : forall c, c <= limit -> lookf c 0 = Some (dl c).
+  Variable G : N -> N -> Prop.
+  Hypothesis G_look : forall c key, c <= limit -> G c key -> lookf c key = Some (dl c).
+  Hypothesis G_zero : forall c, c <= limit -> G c 0.
   (* keys handed out by nextf are good for the code point they come with *)
-  Definition good (c key : N) : Prop := lookf c key = Some (dl c).
-  Hypothesis next_good : forall c key n k, 0 < c -> c < limit -> good c key -> nextf c key = Some (n, k) -> c < n -> n <= limit -> good n k.
+  Hypothesis next_good : forall c key n k, 0 < c -> c < limit -> G c key -> nextf c key = Some (n, k) -> c < n -> n <= limit -> G n k.
   (* what nextf skips is unmapped *)
-  Hypothesis next_skips : forall c key n k, 0 < c -> c < limit -> good c key -> nextf c key = Some (n, k) -> forall d, c < d -> d < n -> d <= limit -> dl d = 0.
-  Hypothesis next_total : forall c key, 0 < c -> c < limit -> good c key -> nextf c key <> None.
+  Hypothesis next_skips : forall c key n k, 0 < c -> c < limit -> G c key -> nextf c key = Some (n, k) -> forall d, c < d -> d < n -> d <= limit -> dl d = 0.
+  Hypothesis next_total : forall c key, 0 < c -> c < limit -> G c key -> nextf c key <> None.
 
   (* invariant of a running state: everything below cp is already right in the map; cp's key is good; the map is
      untouched (as initially) from cp upwards *)
   Variable m0 : cmap.
   Definition inv (s : cstate) : Prop :=
     match s with
-    | CRun m cp key => (cp <= limit -> good cp key) /\ (forall d, d < cp -> d <= limit -> cget m d = dl d) /\ (forall d, cp <= d \/ limit < d -> cget m d = cget m0 d)
+    | CRun m cp key => (cp <= limit -> G cp key) /\ (forall d, d < cp -> d <= limit -> cget m d = dl d) /\ (forall d, cp <= d \/ limit < d -> cget m d = cget m0 d)
     | CDone m => (forall d, d <= limit -> cget m d = dl d) /\ (forall d, limit < d -> cget m d = cget m0 d)
     | CTrap => False
     end.
@@ -110,7 +111,7 @@ Section Loop.
     intros (Hg & Hlow & Hhigh). unfold step, cache_step.
     destruct (limit <? cp) eqn:E1.
     - cbn [inv]. split; [intros d Hd; apply Hlow; lia|intros d Hd; apply Hhigh; lia].
-    - assert (Hg' : good cp key) by (apply Hg; lia). unfold good in Hg'. rewrite Hg'.
+    - assert (Hg' : G cp key) by (apply Hg; lia). rewrite (G_look cp key ltac:(lia) Hg').
       assert (Hstore_low : forall d, d <= cp -> d <= limit -> cget (cset m cp (dl cp)) d = dl d).
       { intros d Hd Hd2. destruct (N.eq_dec cp d) as [->|Hne]; [apply cget_cset_same|].
         rewrite cget_cset_other by exact Hne. apply Hlow; lia. }
@@ -120,13 +121,13 @@ Section Loop.
       + cbn [inv]. split; [intros d Hd; apply Hstore_low; lia|intros d Hd; apply Hstore_high; lia].
       + destruct (cp =? 0) eqn:E3.
         * assert (E4 : (0 <=? cp) = true) by lia. rewrite E4. cbn [inv].
-          split; [intros _; unfold good; apply dl_def; lia|]. split.
+          split; [intros _; apply G_zero; lia|]. split.
           -- intros d Hd Hd2. apply Hstore_low; lia.
           -- intros d Hd. apply Hstore_high. lia.
         * destruct (nextf cp key) as [[nx k']|] eqn:En;
             [|exfalso; apply (next_total cp key); [lia|lia|exact Hg'|exact En]].
           destruct (nx <=? cp) eqn:E5; cbn [inv].
-          -- split; [intros _; unfold good; apply dl_def; lia|]. split.
+          -- split; [intros _; apply G_zero; lia|]. split.
              ++ intros d Hd Hd2. apply Hstore_low; lia.
              ++ intros d Hd. apply Hstore_high. lia.
           -- split; [intros Hnl; apply (next_good cp key nx k'); try assumption; lia|]. split.
@@ -142,9 +143,9 @@ Section Loop.
   Proof. induction k as [|k IH]; intros s H; cbn [iter_nat]; [exact H|]. apply IH. apply step_inv. exact H. Qed.
 
   (* the first code point: NextCodepoint(0) *)
-  Hypothesis first_good : forall c0 k0, nextf 0 0 = Some (c0, k0) -> (c0 <= limit -> good c0 k0) /\ (forall d, d < c0 -> d <= limit -> dl d = 0).
+  Hypothesis first_good : forall c0 k0, nextf 0 0 = Some (c0, k0) -> (c0 <= limit -> G c0 k0) /\ (forall d, d < c0 -> d <= limit -> dl d = 0).
 
-  Theorem cache_subtable_agrees m : limit <= 0x10FFFF -> cache_subtable nextf lookf limit m0 = Some (Some m) ->
+  Theorem cache_subtable_agrees_G m : limit <= 0x10FFFF -> cache_subtable nextf lookf limit m0 = Some (Some m) ->
     (forall d, d <= limit -> cget m d = dl d) /\ (forall d, limit < d -> cget m d = cget m0 d).
   Proof.
     intros Hl. unfold cache_subtable. pose proof first_good as FG.
@@ -161,7 +162,7 @@ Section Loop.
   Qed.
 
   Hypothesis first_total : nextf 0 0 <> None.
-  Theorem cache_subtable_no_trap : cache_subtable nextf lookf limit m0 <> None.
+  Theorem cache_subtable_no_trap_G : cache_subtable nextf lookf limit m0 <> None.
   Proof.
     unfold cache_subtable. pose proof first_good as FG. pose proof first_total as FT.
     destruct (nextf 0 0) as [[c0 k0]|] eqn:E0.
@@ -177,3 +178,20 @@ Section Loop.
     - exfalso. exact (FT eq_refl).
   Qed.
 End Loop.
+
+(* the interface stated with the weakest possible key predicate: a key is good when the keyed lookup returns the direct result *)
+Definition good (lookf : N -> N -> option N) (dl : N -> N) (c key : N) : Prop := lookf c key = Some (dl c).
+Theorem cache_subtable_agrees (nextf : N -> N -> option (N * N)) (lookf : N -> N -> option N) (limit : N) (dl : N -> N) :
+    (forall c, c <= limit -> lookf c 0 = Some (dl c)) ->
+    (forall c key n k, 0 < c -> c < limit -> good lookf dl c key -> nextf c key = Some (n, k) -> c < n -> n <= limit -> good lookf dl n k) ->
+    (forall c key n k, 0 < c -> c < limit -> good lookf dl c key -> nextf c key = Some (n, k) ->
+                       forall d, c < d -> d < n -> d <= limit -> dl d = 0) ->
+    (forall c key, 0 < c -> c < limit -> good lookf dl c key -> nextf c key <> None) ->
+    forall m0, (forall d, d <= limit -> dl d = 0 -> cget m0 d = 0) ->
+    (forall c0 k0, nextf 0 0 = Some (c0, k0) -> (c0 <= limit -> good lookf dl c0 k0) /\ (forall d, d < c0 -> d <= limit -> dl d = 0)) ->
+    forall m, limit <= 0x10FFFF -> cache_subtable nextf lookf limit m0 = Some (Some m) ->
+    (forall d, d <= limit -> cget m d = dl d) /\ (forall d, limit < d -> cget m d = cget m0 d).
+Proof.
+  intros Hdl Hg Hs Ht m0 Hm0 Hf m. apply (cache_subtable_agrees_G nextf lookf limit dl (good lookf dl)); try assumption.
+  intros c key _ H. exact H.
+Qed.
